@@ -1,5 +1,6 @@
 SPECIFICATION Spec
 CONSTANTS
+  MaxRounds = 1
   MaxDepth = 3
   MaxDefects = 4
   MaxRenames = 1
